@@ -41,7 +41,7 @@ import (
 const interval = time.Hour
 
 type action struct {
-	Kind string `json:"kind"` // sleep | wake | finish | fire | enter | pollend
+	Kind string `json:"kind"` // sleep | wake | finish | fire | enter | pollend | pollcall | stop-load | stop-start | crash-load | crash-start
 	Idx  int    `json:"idx,omitempty"`
 }
 
@@ -80,6 +80,7 @@ type world struct {
 	enterGates []chan struct{}
 	enterOpen  []bool
 	starting   int // requester being started (its goroutine id for the callback)
+	epoch      int // process lifetime; callbacks of an earlier lifetime do nothing
 }
 
 func readPersist(path string) (int, bool) {
@@ -96,48 +97,99 @@ func readPersist(path string) (int, bool) {
 	return p.State, true
 }
 
-// runCase executes the actions; it stops at the first action that is not
-// enabled (returns how many were executed) and reports the actions enabled at the end.
+// markFile re-writes the state file with an extra field the manager never
+// writes: a later file without the field was written by the manager.
+func markFile(path string) {
+	b, err := os.ReadFile(path)
+	if err != nil {
+		return
+	}
+	var m map[string]json.RawMessage
+	if json.Unmarshal(b, &m) != nil {
+		return
+	}
+	m["verif_marker"] = json.RawMessage("1")
+	if nb, err := json.Marshal(m); err == nil {
+		os.WriteFile(path, nb, 0o600)
+	}
+}
+
+func hasMarker(path string) (exists, marked bool) {
+	b, err := os.ReadFile(path)
+	if err != nil {
+		return false, false
+	}
+	var m map[string]json.RawMessage
+	if json.Unmarshal(b, &m) != nil {
+		return true, false
+	}
+	_, marked = m["verif_marker"]
+	return true, marked
+}
+
+// runCase executes the actions (skipping those that are not enabled when
+// their turn comes) and reports the executed ones, the observations and the
+// actions enabled at the end.
 func runCase(t *testing.T, dir string, cs *caseSpec) (out []obs, done []action, enabled []action, panicked string) {
 	synctest.Test(t, func(t *testing.T) {
 		panicked = vh.Recover(func() {
 			w := &world{inCb: -1}
 			cfg := config.SleepConfig{Enabled: true, PollInterval: interval, PollIntervalJitter: 0, PollDuration: time.Millisecond, PersistState: true}
-			mgr := sleep.NewManager(cfg, dir, logging.NewLogger("error", "text"))
 			stateFile := filepath.Join(dir, "sleep_state.json")
 			os.Remove(stateFile)
-			block := func(code int) func() error {
-				return func() error {
-					w.mu.Lock()
-					w.log = append(w.log, code)
-					w.inCb = w.starting
-					g := make(chan struct{})
-					w.reqGate = g
-					w.mu.Unlock()
-					<-g
-					return nil
+			os.Remove(stateFile + ".tmp")
+			// one Manager per process lifetime; callbacks of an ended lifetime do nothing
+			newManager := func() *sleep.Manager {
+				w.mu.Lock()
+				ep := w.epoch
+				w.mu.Unlock()
+				dead := func() bool { return w.epoch != ep }
+				block := func(code int) func() error {
+					return func() error {
+						w.mu.Lock()
+						if dead() {
+							w.mu.Unlock()
+							return nil
+						}
+						w.log = append(w.log, code)
+						w.inCb = w.starting
+						g := make(chan struct{})
+						w.reqGate = g
+						w.mu.Unlock()
+						<-g
+						return nil
+					}
 				}
+				m := sleep.NewManager(cfg, dir, logging.NewLogger("error", "text"))
+				m.SetCallbacks(sleep.Callbacks{
+					OnSleep: block(0),
+					OnWake:  block(1),
+					OnPoll: func() error {
+						w.mu.Lock()
+						if dead() {
+							w.mu.Unlock()
+							return nil
+						}
+						w.log = append(w.log, 2)
+						g := make(chan struct{})
+						w.pollGates = append(w.pollGates, g)
+						w.pollOpen = append(w.pollOpen, true)
+						w.mu.Unlock()
+						<-g
+						return nil
+					},
+					OnPollEnd: func() error {
+						w.mu.Lock()
+						if !dead() {
+							w.log = append(w.log, 3)
+						}
+						w.mu.Unlock()
+						return nil
+					},
+				})
+				return m
 			}
-			mgr.SetCallbacks(sleep.Callbacks{
-				OnSleep: block(0),
-				OnWake:  block(1),
-				OnPoll: func() error {
-					w.mu.Lock()
-					w.log = append(w.log, 2)
-					g := make(chan struct{})
-					w.pollGates = append(w.pollGates, g)
-					w.pollOpen = append(w.pollOpen, true)
-					w.mu.Unlock()
-					<-g
-					return nil
-				},
-				OnPollEnd: func() error {
-					w.mu.Lock()
-					w.log = append(w.log, 3)
-					w.mu.Unlock()
-					return nil
-				},
-			})
+			mgr := newManager()
 			sleep.VerifSetYieldHook(func(point string) {
 				if point != "sleep.poll.before-onpoll" {
 					return
@@ -153,28 +205,50 @@ func runCase(t *testing.T, dir string, cs *caseSpec) (out []obs, done []action, 
 			persist, writes := 0, 0
 			observe := func() obs {
 				synctest.Wait()
-				if st, ok := readPersist(stateFile); ok {
-					persist = st
+				if exists, marked := hasMarker(stateFile); exists && !marked {
+					if st, ok := readPersist(stateFile); ok {
+						persist = st
+					}
 					writes++
-					os.Remove(stateFile)
+					markFile(stateFile)
 				}
 				w.mu.Lock()
 				defer w.mu.Unlock()
 				return obs{State: int(mgr.GetState()), Persist: persist, Log: append([]int(nil), w.log...), Results: append([]int(nil), w.results...), Writes: writes, Started: len(w.enterGates), InCb: w.inCb}
 			}
+			releasePollers := func() {
+				w.mu.Lock()
+				for k, open := range w.enterOpen {
+					if open {
+						close(w.enterGates[k])
+						w.enterOpen[k] = false
+					}
+				}
+				w.mu.Unlock()
+				synctest.Wait()
+				w.mu.Lock()
+				for k, open := range w.pollOpen {
+					if open {
+						close(w.pollGates[k])
+						w.pollOpen[k] = false
+					}
+				}
+				w.mu.Unlock()
+				synctest.Wait()
+			}
 			isEnabled := func(a action) bool {
 				w.mu.Lock()
 				defer w.mu.Unlock()
 				switch a.Kind {
-				case "sleep", "wake":
+				case "sleep", "wake", "pollcall", "stop-load", "stop-start", "crash-load", "crash-start":
 					return w.inCb == -1
 				case "finish":
 					return w.inCb == a.Idx && a.Idx >= 0
 				case "fire":
-					// While a requester sits in its callback the lock is held. On the code as it is no
-					// timer can be armed then (Sleep arms it when it finishes, Wake stops it before its
-					// callback), so nothing is lost; if a change made one fire here, Poll would wait on
-					// the mutex, which synctest does not treat as durably blocked (deadlock panic).
+					// While a requester sits in its callback the lock is held; a Poll started then
+					// would wait on the mutex, which synctest does not treat as durably blocked
+					// (deadlock panic). Polls that contend for the lock are exercised by the
+					// real-time scenarios below.
 					return w.inCb == -1
 				case "enter":
 					return a.Idx >= 0 && a.Idx < len(w.enterOpen) && w.enterOpen[a.Idx]
@@ -196,12 +270,12 @@ func runCase(t *testing.T, dir string, cs *caseSpec) (out []obs, done []action, 
 					w.kinds = append(w.kinds, a.Kind)
 					w.starting = j
 					w.mu.Unlock()
-					go func(kind string) {
+					go func(kind string, m *sleep.Manager) {
 						var err error
 						if kind == "sleep" {
-							err = mgr.Sleep()
+							err = m.Sleep()
 						} else {
-							err = mgr.Wake()
+							err = m.Wake()
 						}
 						code := 9
 						switch err {
@@ -218,7 +292,7 @@ func runCase(t *testing.T, dir string, cs *caseSpec) (out []obs, done []action, 
 							w.inCb = -1
 						}
 						w.mu.Unlock()
-					}(a.Kind)
+					}(a.Kind, mgr)
 				case "finish":
 					w.mu.Lock()
 					g := w.reqGate
@@ -226,6 +300,8 @@ func runCase(t *testing.T, dir string, cs *caseSpec) (out []obs, done []action, 
 					close(g)
 				case "fire":
 					time.Sleep(interval + time.Millisecond)
+				case "pollcall":
+					go func(m *sleep.Manager) { m.Poll() }(mgr)
 				case "enter":
 					w.mu.Lock()
 					g := w.enterGates[a.Idx]
@@ -239,6 +315,34 @@ func runCase(t *testing.T, dir string, cs *caseSpec) (out []obs, done []action, 
 					w.mu.Unlock()
 					close(g)
 					time.Sleep(2 * time.Millisecond)
+				case "stop-load", "stop-start", "crash-load", "crash-start":
+					// end of the process: Stop() (which writes the current state), or a crash,
+					// imitated by putting the file back as it was before Stop() wrote it
+					synctest.Wait()
+					var saved []byte
+					crash := strings.HasPrefix(a.Kind, "crash")
+					if crash {
+						saved, _ = os.ReadFile(stateFile)
+					}
+					mgr.Stop()
+					if crash {
+						if saved != nil {
+							os.WriteFile(stateFile, saved, 0o600)
+						} else {
+							os.Remove(stateFile)
+						}
+					}
+					w.mu.Lock()
+					w.epoch++
+					w.mu.Unlock()
+					releasePollers()
+					// the new process
+					mgr = newManager()
+					if strings.HasSuffix(a.Kind, "start") {
+						mgr.Start()
+					} else {
+						mgr.LoadState()
+					}
 				}
 				out = append(out, observe())
 			}
@@ -246,7 +350,7 @@ func runCase(t *testing.T, dir string, cs *caseSpec) (out []obs, done []action, 
 			w.mu.Lock()
 			nReq, nPoll, nEnter := len(w.results), len(w.pollOpen), len(w.enterOpen)
 			w.mu.Unlock()
-			cands := []action{{Kind: "sleep"}, {Kind: "wake"}, {Kind: "fire"}}
+			cands := []action{{Kind: "sleep"}, {Kind: "wake"}, {Kind: "fire"}, {Kind: "pollcall"}, {Kind: "stop-load"}, {Kind: "stop-start"}, {Kind: "crash-load"}, {Kind: "crash-start"}}
 			for j := 0; j < nReq; j++ {
 				cands = append(cands, action{Kind: "finish", Idx: j})
 			}
@@ -270,22 +374,9 @@ func runCase(t *testing.T, dir string, cs *caseSpec) (out []obs, done []action, 
 			synctest.Wait()
 			mgr.Stop()
 			w.mu.Lock()
-			for k, open := range w.enterOpen {
-				if open {
-					close(w.enterGates[k])
-					w.enterOpen[k] = false
-				}
-			}
+			w.epoch++
 			w.mu.Unlock()
-			synctest.Wait()
-			w.mu.Lock()
-			for k, open := range w.pollOpen {
-				if open {
-					close(w.pollGates[k])
-					w.pollOpen[k] = false
-				}
-			}
-			w.mu.Unlock()
+			releasePollers()
 			time.Sleep(5 * time.Millisecond)
 			synctest.Wait()
 		})
@@ -390,6 +481,21 @@ func monitor(c *vh.Ctx, cs *caseSpec, out []obs) {
 		if a.Kind == "sleep" || a.Kind == "wake" {
 			reqKind = append(reqKind, a.Kind)
 		}
+		if strings.HasPrefix(a.Kind, "stop-") || strings.HasPrefix(a.Kind, "crash-") {
+			// a new process must come up in the state the file held when the old one ended
+			want := prev.Persist
+			if strings.HasPrefix(a.Kind, "stop-") {
+				want = prev.State // Stop() writes the current state
+			}
+			if o.State != want {
+				c.Fail("restart-resumed-wrong-state", fmt.Sprintf("action %d (%s): state before %d, file before %d, new process came up in state %d", i, a, prev.State, prev.Persist, o.State), cs)
+			}
+			if o.Persist != o.State {
+				c.Fail("persisted-state-differs", fmt.Sprintf("action %d (%s): state %d, state file %d", i, a, o.State, o.Persist), cs)
+			}
+			prev = o
+			continue
+		}
 		// edges
 		if o.State != prev.State && !edgeOK[[2]int{prev.State, o.State}] {
 			c.Fail("undocumented-edge", fmt.Sprintf("action %d (%s): state went %d -> %d", i, a, prev.State, o.State), cs)
@@ -465,6 +571,16 @@ func coqAction(a action) string {
 		return "AFire"
 	case "enter":
 		return fmt.Sprintf("AEnter %d", a.Idx)
+	case "pollcall":
+		return "ACallPoll"
+	case "stop-load":
+		return "ARestart true false"
+	case "stop-start":
+		return "ARestart true true"
+	case "crash-load":
+		return "ARestart false false"
+	case "crash-start":
+		return "ARestart false true"
 	default:
 		return fmt.Sprintf("APollEnd %d", a.Idx)
 	}
@@ -507,7 +623,7 @@ func TestVerif(t *testing.T) {
 		for _, a := range cs.Actions {
 			key += a.String() + " "
 			c.Count("action:" + a.Kind)
-			if a.Kind == "fire" || a.Kind == "sleep" || a.Kind == "wake" {
+			if a.Kind == "fire" || a.Kind == "sleep" || a.Kind == "wake" || strings.Contains(a.Kind, "-") {
 				nontriv++
 			}
 		}
@@ -562,6 +678,17 @@ func TestVerif(t *testing.T) {
 			"sleep finish0 fire enter0 pollend0 fire enter1 pollend1 wake finish1",
 			// refusals
 			"sleep finish0 sleep wake finish2 wake",
+			// histories that span restarts: sleep, process exit, new manager loads SLEEPING, wake before any poll, exit, restart
+			"sleep finish0 stop-load wake finish1 stop-load sleep finish2",
+			"sleep finish0 crash-start wake finish1 crash-load",
+			"sleep finish0 stop-start fire enter0 pollend0 wake finish1 stop-start",
+			// restart while polling: crash (file says SLEEPING) and Stop() (file says POLLING)
+			"sleep finish0 fire enter0 crash-start fire enter1 pollend1 wake finish1",
+			"sleep finish0 fire enter0 stop-start fire wake finish1 crash-start",
+			"sleep finish0 fire stop-load sleep wake finish2 stop-load",
+			// restart while awake, and a sleep as the first transition after a load
+			"stop-start sleep finish0 crash-load wake finish1 stop-load",
+			"crash-load sleep finish0 fire enter0 pollend0 stop-load fire wake finish1",
 			// wake completes, time passes (no timer must be left), sleep again and poll
 			"sleep finish0 wake finish1 fire sleep finish2 fire enter0 pollend0",
 		} {
@@ -595,7 +722,7 @@ func TestVerif(t *testing.T) {
 			}
 		}
 		// exhaustive enumeration of all schedules up to a length
-		depth := c.N(5, 7)
+		depth := c.N(4, 6)
 		frontier := [][]action{{}}
 		for d := 0; d < depth; d++ {
 			var next [][]action
@@ -606,6 +733,15 @@ func TestVerif(t *testing.T) {
 				} else {
 					en = do(&caseSpec{Actions: append([]action(nil), pre...)})
 				}
+				// the exhaustive part uses two of the four kinds of restart; all four occur in the
+				// witnesses and the random schedules
+				var keep []action
+				for _, a := range en {
+					if a.Kind != "stop-start" && a.Kind != "crash-load" {
+						keep = append(keep, a)
+					}
+				}
+				en = keep
 				if len(pre) > 0 && len(pre) == d && d == depth-1 {
 					// leaves are run below
 				}
@@ -630,9 +766,11 @@ func TestVerif(t *testing.T) {
 			length := 8 + r.Intn(9)
 			en := []action{{Kind: "sleep"}, {Kind: "wake"}, {Kind: "fire"}}
 			for len(seq) < length && len(en) > 0 {
-				var fin, pe, other []action
+				var fin, pe, other, rst []action
 				for _, a := range en {
 					switch a.Kind {
+					case "stop-load", "stop-start", "crash-load", "crash-start":
+						rst = append(rst, a)
 					case "enter":
 						if r.Chance(2, 3) {
 							fin = append(fin, a)
@@ -650,6 +788,8 @@ func TestVerif(t *testing.T) {
 				var pick action
 				w := r.Intn(10)
 				switch {
+				case len(rst) > 0 && r.Chance(1, 7):
+					pick = rst[r.Intn(len(rst))]
 				case len(fin) > 0 && w < 7:
 					pick = fin[0]
 				case len(pe) > 0 && w < 3:
